@@ -231,48 +231,31 @@ Fixpoint appendResultCompletions (items : list psend) (res : list ares) : list c
       end
   end.
 
-(* activeAppendItems.  [alive]: appendItemError(item) == nil.  The Go loop keeps
-   [active] nil until it needs a private copy; transcribed as written, including
-   its defect (C29-K1): when the batch STARTS with an inactive item the first
-   copy is the empty (nil) slice, so the next inactive item finds [active] still
-   nil and copies items[:i] — which are inactive items — into the active list. *)
+(* activeAppendItems.  [alive]: appendItemError(item) == nil.  The Go loop returns
+   the input slice itself while nothing is filtered and copies the active prefix
+   exactly once, at the first inactive item. *)
 Definition alive (it : psend) : bool := ps_dead it =? 0.
 
 Fixpoint active_loop (all : list psend) (i : nat) (rest : list psend)
-         (active : option (list psend)) (filtered : bool) : option (list psend) * bool :=
+         (active : list psend) (filtered : bool) : list psend * bool :=
   match rest with
   | [] => (active, filtered)
   | it :: r =>
       if alive it
-      then active_loop all (S i) r
-             (if filtered then Some (match active with Some a => a ++ [it] | None => [it] end) else active)
-             filtered
-      else active_loop all (S i) r
-             (match active with
-              | Some a => Some a
-              | None => match firstn i all with [] => None | l => Some l end   (* append(nil, items[:i]...) *)
-              end)
-             true
+      then active_loop all (S i) r (if filtered then active ++ [it] else active) filtered
+      else active_loop all (S i) r (if filtered then active else firstn i all) true
   end.
 
 Definition inactive_comps (items : list psend) : list comp :=
   map (fun it => errcomp it (ps_dead it)) (filter (fun it => negb (alive it)) items).
 
 Definition activeAppendItems (items : list psend) : list psend * list comp :=
-  let '(active, filtered) := active_loop items 0 items None false in
-  (if filtered then match active with Some a => a | None => [] end else items,
-   inactive_comps items).
+  let '(active, filtered) := active_loop items 0 items [] false in
+  (if filtered then active else items, inactive_comps items).
 
-(* what activeAppendItems is meant to compute *)
+(* what activeAppendItems computes (Proof/ChanAppend_expand.v) *)
 Definition activeAppendItems_spec (items : list psend) : list psend * list comp :=
   (filter alive items, inactive_comps items).
-
-(* the batch starts with two inactive items: the trigger of C29-K1 *)
-Definition leading_dead2 (items : list psend) : bool :=
-  match items with
-  | a :: b :: _ => negb (alive a) && negb (alive b)
-  | _ => false
-  end.
 
 (* ---- the ports ------------------------------------------------------------------------ *)
 
